@@ -30,7 +30,7 @@ try:
     checks = {}
     for p in props:
         t0 = time.time()
-        c = run(f"{HERE}/bin/check {p}", env=dict(os.environ, PYVC_REPO=scratch), timeout=900)
+        c = run(f"{HERE}/bin/check {p}", env=dict(os.environ, PYVC_REPO=scratch, PYVC_EVIDENCE_DIR=os.path.join(scratch, "_evidence")), timeout=900)
         lines = [l for l in c.stdout.splitlines() if l.startswith("VIOLATION") or l.startswith("UNDECIDED") or l.startswith("CHECKER")]
         checks[p] = {"exit": c.returncode, "lines": lines[:6], "summary": c.stdout.strip().splitlines()[-1] if c.stdout.strip() else "", "wall_s": round(time.time() - t0, 1)}
     meta["checks_with_patch"] = checks
